@@ -338,9 +338,11 @@ def run(prog: Program, chk: Check):
         g = C.build(f.node)
         data_p = [p for p in f.params() if p != "self"][0]
 
+        fcm = guards.copy_map(f.node)  # `type_hash = msg_data.type_hash ... header.version = type_hash`: the local is looked through
+
         def is_stamp(n):
             a_ = n.ast
-            return n.kind == "stmt" and isinstance(a_, ast.Assign) and any(path_of(t) == f"{hv}.version" for t in a_.targets) and norm(a_.value).endswith(".type_hash")
+            return n.kind == "stmt" and isinstance(a_, ast.Assign) and any(path_of(t) == f"{hv}.version" for t in a_.targets) and norm(guards.subst(a_.value, fcm)).endswith(".type_hash")
 
         stamps = [n for n in g.nodes if is_stamp(n)]
         sends = [n for n in g.nodes for c in node_calls(n) if is_method_call(c, "_sendall") and c.args and path_of(c.args[0]) == hv]
